@@ -13,28 +13,28 @@ import (
 
 // HarnessResult accumulates everything learnt about one harness entry.
 type HarnessResult struct {
-	Harness     string                `json:"harness"`
-	Bounds      map[string]int        `json:"bounds"`
-	Paths       map[string]int        `json:"paths"`
-	Labels      map[string]*labelStat `json:"labels"`
-	Failures    []*Failure            `json:"failures"`
-	FailCount   map[string]int        `json:"fail_count"`
-	Covers      map[string]int        `json:"covers"`
-	Funcs       map[string]int        `json:"funcs"`
-	Intercepts  map[string]int        `json:"intercepts"`
-	Queries     int                   `json:"queries"`
-	SolverSec   float64               `json:"solver_s"`
-	WallSec     float64               `json:"wall_s"`
-	Notes       []string              `json:"notes"`
-	Nontrivial  int                   `json:"nontrivial_paths"`
-	Samples     []map[string]any      `json:"samples"`
-	SolverErrs  []string              `json:"solver_errors"`
-	Access      map[string]int        `json:"access,omitempty"`
-	AccessPos   map[string]string     `json:"access_pos,omitempty"`
-	noteSet     map[string]bool
-	sigSeen     map[string]int
-	pathSigs    map[string]bool
-	mu          sync.Mutex
+	Harness    string                `json:"harness"`
+	Bounds     map[string]int        `json:"bounds"`
+	Paths      map[string]int        `json:"paths"`
+	Labels     map[string]*labelStat `json:"labels"`
+	Failures   []*Failure            `json:"failures"`
+	FailCount  map[string]int        `json:"fail_count"`
+	Covers     map[string]int        `json:"covers"`
+	Funcs      map[string]int        `json:"funcs"`
+	Intercepts map[string]int        `json:"intercepts"`
+	Queries    int                   `json:"queries"`
+	SolverSec  float64               `json:"solver_s"`
+	WallSec    float64               `json:"wall_s"`
+	Notes      []string              `json:"notes"`
+	Nontrivial int                   `json:"nontrivial_paths"`
+	Samples    []map[string]any      `json:"samples"`
+	SolverErrs []string              `json:"solver_errors"`
+	Access     map[string]int        `json:"access,omitempty"`
+	AccessPos  map[string]string     `json:"access_pos,omitempty"`
+	noteSet    map[string]bool
+	sigSeen    map[string]int
+	pathSigs   map[string]bool
+	mu         sync.Mutex
 }
 
 func newHarnessResult(name string, bounds map[string]int) *HarnessResult {
